@@ -54,7 +54,9 @@ PROP = dict(
         dict(module="BlobServerMC", cfg="MC_BlobServer_rd.cfg", tiers=("thorough",), coverage=False, timeout=1500),
         dict(module="BlobServerMC", cfg="MC_BlobServer_fc.cfg", tiers=("thorough",), coverage=False, timeout=1500),
         dict(module="BlobServerMC", cfg="MC_BlobServer_3n.cfg", tiers=("thorough",), coverage=False, timeout=1500),
+        dict(module="BlobServerMC", cfg="MC_BlobServer_mix.cfg", tiers=("thorough",), coverage=False, timeout=1500),
         dict(module="BlobServerMC", cfg="MC_BlobServer_live.cfg", tiers=("thorough",), coverage=False, timeout=1500),
+        dict(module="BlobServerMC", cfg="MC_BlobServer_live_rd.cfg", tiers=("thorough",), coverage=False, timeout=1500),
         ],
     trace=dict(module="BlobServerTrace", cfg="BlobServerTrace.cfg", chunk_lines=2000, timeout=1500),
     isolate=lambda head: (head.get("cfg") or {}).get("kind") in _FINDING_KINDS,
@@ -67,13 +69,13 @@ PROP = dict(
               "origin blob servers (linearizability with respect to the step semantics)",
     rule="one trace = one history of a cluster of 2-3 REAL blobserver.Server instances (httptest, real CAStore, real "
          "metainfogen, real blobrefresh, real blobclient between the nodes; harness-supplied hash ring, storage backend "
-         "with gated Download, persisted-retry manager, remote cluster, mock clocks). Family 'seq' (56 / 320 traces): 25-75 "
+         "with gated Download, persisted-retry manager, remote cluster, mock clocks). Family 'seq' (56 / 268 traces): 20-55 "
          "driver steps, one request at a time over ALL endpoints (upload start/patch/commit with whole, partial, junk, "
          "foreign, short, long, empty, beyond-the-end bodies; duplicate and transfer endpoints; stat/get/prefetch/"
          "metainfo/delete/overwrite/replicate/locations/cleanup/health; unparsable parameters) interleaved with faults "
          "(node down, backend down, manager.Add failing, remote down), ring changes, backend contents, clock steps and "
          "the release of parked refresh downloads with exact / corrupted / failing / vanished content; family 'conc' "
-         "(28 / 160 traces): 2-3 clients issue 3-6 requests each at once in 2-3 rounds against the same blobs; 9 scripted "
+         "(28 / 134 traces): 2-3 clients issue 3-6 requests each at once in 2-3 rounds against the same blobs; 9 scripted "
          "traces (fan-out with a dead and a conflicting replica, 202-then-200 refresh with error TTL, ring change + "
          "forced cleanup, duplicate commit meeting a blob that appeared meanwhile, and one trace per recorded finding). "
          "Every request's arrival and answer at every node, every manager.Add, backend.Download, remote upload and "
